@@ -248,3 +248,21 @@ Definition rf_random : rf_t := fun b d dr =>
   let u := hd 0%Q dr in
   let delta := (inject_Z (b mod d) / inject_Z d)%Q in
   (if negb (Qle_bool delta u) then b / d + 1 else b / d, tl dr).
+
+(* --- Run: metric meta resolution. The meta of a row is Item.MetricMeta only if that meta belongs to the metric the row
+   is accounted to (MetricID == MetricMeta.MetricID); otherwise getMetricMeta: the meta storage (when there is one),
+   else missingMetricMeta. (format.BuiltinMetrics is not modelled: accounted ids outside the built-in range.) *)
+Record meta := mkmeta { m_id : Z; m_ns : Z; m_group : Z; m_nsw : Z; m_gw : Z; m_mw : Z; m_nsa : bool; m_fki : list Z }.
+Definition resolve_meta (has_storage : bool) (storage : list meta) (missing : meta) (acct : Z) (item_meta : option meta) : meta :=
+  let lookup :=
+    if has_storage then match find (fun m => m_id m =? acct) storage with Some m => m | None => missing end
+    else missing in
+  match item_meta with
+  | Some m => if m_id m =? acct then m else lookup
+  | None => lookup
+  end.
+(* the row the rest of Run sees *)
+Definition resolved_row (has_storage : bool) (storage : list meta) (missing : meta)
+    (id size whale acct budget : Z) (single : bool) (item_meta : option meta) (tags : list Z) : row :=
+  let m := resolve_meta has_storage storage missing acct item_meta in
+  mkrow id size whale acct budget (m_ns m) (m_group m) (m_nsw m) (m_gw m) (m_mw m) (m_nsa m) single (m_fki m) tags.
